@@ -382,7 +382,7 @@ def _insert_rows(spec, rows, links, execute):
     for a, n, m in S.iter_models(spec):
         t = S.table_of(a, m)
         for r in rows.get(m['uid'], []):
-            cols = ['id']
+            cols = [S.pk_of(m)]
             vals = [r['id']]
             for f in m['fields']:
                 if f['kind'] == 'ManyToMany':
@@ -435,7 +435,7 @@ def read_rows(final_spec, execute, existing_tables):
         info = execute('PRAGMA table_info("%s")' % t)
         cols = [r[1] for r in info]
         data = execute('SELECT * FROM "%s"' % t)
-        colmap = {'id': 'id'}
+        colmap = {S.pk_of(m): 'id'}
         for f in m['fields']:
             if f['kind'] != 'ManyToMany':
                 colmap[S.column_of(f)] = f['uid']
